@@ -1,7 +1,6 @@
 //! Result collection, known-findings filter, evidence file, exit code.
 use serde_json::{json, Map, Value};
 use std::collections::BTreeMap;
-use std::time::Instant;
 
 #[derive(Clone, Debug)]
 pub struct Args {
@@ -57,7 +56,7 @@ pub struct Report {
     pub property: String,
     pub level: &'static str,
     pub args: Args,
-    t0: Instant,
+    t0: f64,
     pub coverage: Map<String, Value>,
     samples: Vec<Value>,
     pub violations: Vec<ViolationRec>,
@@ -78,7 +77,7 @@ impl Report {
             property: property.into(),
             level,
             args,
-            t0: Instant::now(),
+            t0: crate::env::real_now_s(),
             coverage: Map::new(),
             samples: vec![],
             violations: vec![],
@@ -177,7 +176,7 @@ impl Report {
                 replay_paths.push(path);
             }
         }
-        let wall = self.t0.elapsed().as_secs_f64();
+        let wall = crate::env::real_now_s() - self.t0;
         if !self.parts.is_empty() {
             self.coverage.insert("parts".into(), json!(self.parts));
         }
